@@ -60,6 +60,10 @@ struct svalue_s {
 #define LPC_INT_SUB(a, b)	((int64_t) ((uint64_t) (a) - (uint64_t) (b)))
 #define LPC_INT_MUL(a, b)	((int64_t) ((uint64_t) (a) * (uint64_t) (b)))
 #define LPC_INT_NEG(a)		((int64_t) (0 - (uint64_t) (a)))
+/* A shift uses the low six bits of its count, which is what the shift instructions of x86-64 and AArch64 do;
+ * in C a count outside 0..63 and a left shift of a negative value are undefined.  >> is arithmetic. */
+#define LPC_INT_LSH(a, n)	((int64_t) ((uint64_t) (a) << ((n) & 63)))
+#define LPC_INT_RSH(a, n)	((int64_t) (a) >> ((n) & 63))
 
 /* values for type field of svalue struct */
 #define T_INVALID       0x0
